@@ -335,9 +335,14 @@ def _atom_key(t: ast.expr) -> tuple[str, bool]:
     if isinstance(t, ast.Compare) and len(t.ops) == 1:
         op = t.ops[0]
         flip = {ast.IsNot: ast.Is, ast.NotEq: ast.Eq, ast.NotIn: ast.In}
+        pol = True
         for neg, pos in flip.items():
             if isinstance(op, neg):
-                return norm(ast.Compare(left=t.left, ops=[pos()], comparators=t.comparators)), False
+                op, pol = pos(), False
+        l, r = t.left, t.comparators[0]
+        if isinstance(op, (ast.Eq, ast.Is)) and norm(r) < norm(l):  # symmetric: `a == b` and `b == a` are one atom
+            l, r = r, l
+        return norm(ast.Compare(left=l, ops=[op], comparators=[r])), pol
     return norm(t), True
 
 
